@@ -1,5 +1,6 @@
-(* Syntax/FixedProofs.v — the proposed repair F02 ([Printer.fixed_policy]) leaves no bad pair:
-   with it the round trip holds for every tree the parser can return. *)
+(* Syntax/FixedProofs.v — hypothetical: with the three associative cases wrapped as well
+   ([Printer.full_policy] = [fixed_policy], the repair F02 as first proposed) no bad pair is left and
+   the round trip holds for every tree the parser can return. *)
 From IronCalc Require Import Base.Prelude Codec.RefA1 Syntax.Token Syntax.Ast Syntax.Printer Syntax.Parser
   Syntax.Shape Syntax.RoundTrip.
 Local Open Scope nat_scope.
@@ -7,7 +8,7 @@ Local Open Scope nat_scope.
 Lemma fixed_bad_child xlsx e : bad_child_with fixed_policy xlsx e = false.
 Proof.
   destruct e as [ | | | | |l r|l r|op l r|op l r|l r| | | | | | | | |a c|c|op l r|c|c| | | ];
-    try reflexivity; cbn [bad_child_with fixed_policy pol_cmp_l pol_cmp_r pol_concat_l pol_concat_r pol_sum_l pol_sum_r
+    try reflexivity; cbn [bad_child_with fixed_policy full_policy pol_cmp_l pol_cmp_r pol_concat_l pol_concat_r pol_sum_l pol_sum_r
       pol_prod_l pol_prod_r pol_pow_l pol_pow_r pol_neg pol_pct pol_range_l pol_range_r pol_at pol_spill].
   all: try (destruct c; destruct xlsx; reflexivity).
   all: apply orb_false_iff; split; [destruct l|destruct r]; destruct xlsx; reflexivity.
